@@ -240,10 +240,16 @@ def check(src, rep):
         rep.ok("R2", f"write census over {len(src.text)} modules", f"no writer of `{store}` / `{regf}` outside HdlcFrame.__init__ and append")
     rep.count("write_census_fields", 2)
 
+    # roles: the frame's header field (holds an HdlcFrameHeader) and the header's back-reference to its frame
+    hdr_fields = [a for a, t in F.field_types.items() if t == HEADER]
+    rep.require(len(hdr_fields) == 1, f"cannot bind the frame's header field: {hdr_fields}")
+    back = [a for a, t in H.field_types.items() if t == FRAME]
+    rep.require(len(back) == 1, f"cannot bind the header's frame field: {back}")
+    roles = {"header": hdr_fields[0], "frame": back[0]}
     # ---------------------------------------------------------------- R3: length test and bit fields
-    _bitfields(rep, M, F, H, file, store)
+    _bitfields(rep, M, F, H, file, store, roles)
     # ---------------------------------------------------------------- R4: accessor geometry
-    _geometry(rep, M, F, H, file, store)
+    _geometry(rep, M, F, H, file, store, roles)
     # ---------------------------------------------------------------- R5 / R6
     rules = {"octets": "R5", "buffer": "R5", "frozen": "R6", "result": "R5"}
     emit(rep, m, appended_values(m), rules)
@@ -254,14 +260,14 @@ def check(src, rep):
     rep.floor("appending rows", sum(1 for sp in m.paths if m.feasible(sp) and sp.post.appends), 4)
 
 
-def _bitfields(rep, M, F, H, file, store):
+def _bitfields(rep, M, F, H, file, store, roles):
     sb = SvBits()
     E = Engine(M, keep_props={"frame_format", "frame_length"})
     # is_expected_length
     fn = F.methods.get("is_expected_length")
     rep.require(fn is not None, "anchor vanished: HdlcFrame.is_expected_length")
     ps = Engine(M, keep_props={"frame_length"}).run(fn)
-    want_a = ("prop", ("f0", SELF, "_header"), "frame_length")
+    want_a = ("prop", ("f0", SELF, roles["header"]), "frame_length")
     ok = False
     if len(ps) == 1 and ps[0].ret and ps[0].ret[0] == "cmp" and ps[0].ret[1] == "Eq":
         a, b = strip_ver(ps[0].ret[2]), strip_ver(ps[0].ret[3])
@@ -328,11 +334,11 @@ def _bitfields(rep, M, F, H, file, store):
                           witness=show_sv(ps2[0].ret) if ps2 else None)
 
 
-def _geometry(rep, M, F, H, file, store):
-    AB = ("prop", ("f0", SELF, "_frame"), "as_bytes")
-    LENF = ("len", ("f0", SELF, "_frame"))
-    # ---- address scan step
-    ga = H.methods.get("_get_address") or next((f for n, f in H.methods.items() if "address" in n and f.params), None)
+def _geometry(rep, M, F, H, file, store, roles):
+    AB = ("prop", ("f0", SELF, roles["frame"]), "as_bytes")
+    LENF = ("len", ("f0", SELF, roles["frame"]))
+    # ---- address scan step: the header method with a position parameter and a loop
+    ga = next((f for n, f in H.methods.items() if f.params and f.kind == "method" and any(isinstance(x, ast.While) for x in ast.walk(f.node))), None)
     rep.require(ga is not None, "address scan helper not found")
     node, ps = loop_body_paths(Engine(M), ga)
     pos_param = ga.params[0]
@@ -434,13 +440,14 @@ def _geometry(rep, M, F, H, file, store):
             rep.violation("R4", f"hdlc.HdlcFrameHeader.{fn.name}", "address-position", f"{name} is violated: scan starts at {fmt_lin(got)}", file, fn.node.lineno,
                           witness=f"expected {fmt_lin(want)}")
     # control position
-    cpf = H.methods.get("_get_control_field_position")
+    cpf = None
     cp_field = None
     upd = H.methods.get("update")
     if upd:
         for n in ast.walk(upd.node):
             if isinstance(n, ast.Assign) and isinstance(n.targets[0], ast.Attribute) and isinstance(n.value, ast.Call) and isinstance(n.value.func, ast.Attribute) \
-                    and cpf is not None and n.value.func.attr == cpf.name:
+                    and isinstance(n.value.func.value, ast.Name) and n.value.func.value.id == "self" and n.value.func.attr in H.methods and not n.value.args:
+                cpf = H.methods[n.value.func.attr]
                 cp_field = n.targets[0].attr
     rep.require(cpf is not None and cp_field is not None, "cannot bind the control-position field of the header")
     vals = [p for p in ret_paths(E.run(cpf)) if p.ret != ("c", None)]
@@ -452,6 +459,42 @@ def _geometry(rep, M, F, H, file, store):
         rep.violation("R4", f"hdlc.HdlcFrameHeader.{cpf.name}", "control-position", "control field position is not 2 + |destination| + |source|", file, cpf.node.lineno,
                       witness=fmt_lin(linear(vals[0].ret)) if vals else None)
     CP = ("f0", SELF, cp_field)
+    # the control position is (re)computed on every append until it is known: update() assigns it on every path that enters with
+    # an unknown position and more than 3 octets, and never overwrites a known one with something else
+    pu = Engine(M, keep_props={"destination_address", "source_address"}).run(upd)
+    bad_u = 0
+    n_u = 0
+    for p in pu:
+        entry_none = None
+        long_enough = None
+        for g, pol, _ in p.guards:
+            gs = strip_ver(g)
+            if gs[0] == "cmp" and gs[1] == "Is" and gs[2] == CP and gs[3] == ("c", None):
+                entry_none = pol if entry_none is None else entry_none
+            if gs[0] == "cmp" and gs[2] == LENF and gs[3][0] == "c" and isinstance(gs[3][1], int):
+                k = gs[3][1]
+                if gs[1] == "LtE":
+                    long_enough = (not pol) if k == 3 else ("odd", gs[1], k, pol)
+                elif gs[1] == "Lt":
+                    long_enough = (not pol) if k == 4 else ("odd", gs[1], k, pol)
+                elif gs[1] == "Eq":
+                    long_enough = ("odd", gs[1], k, pol)
+        writes = [e for e in p.effects if e[0] == "write" and e[1] == SELF and e[2] == cp_field]
+        if entry_none is True:
+            n_u += 1
+            if isinstance(long_enough, tuple):
+                bad_u += 1
+                rep.violation("R4", f"hdlc.HdlcFrameHeader.{upd.name}", "control-position-update", "the control-field position is only computed for one particular frame length: frames with extended (multi-octet) "
+                              "addresses never get a control position, so control, HCS and payload stay unavailable", file, upd.node.lineno, witness=f"len(frame) {long_enough[1]} {long_enough[2]} is {long_enough[3]}")
+            elif long_enough is True and not writes:
+                bad_u += 1
+                rep.violation("R4", f"hdlc.HdlcFrameHeader.{upd.name}", "control-position-update", "with more than 3 octets and an unknown control position update() does not compute it", file, upd.node.lineno)
+        elif entry_none is False and writes:
+            bad_u += 1
+            rep.violation("R4", f"hdlc.HdlcFrameHeader.{upd.name}", "control-position-overwrite", "a known control position is overwritten", file, upd.node.lineno)
+    if n_u and not bad_u:
+        rep.ok("R4", "control position update", f"{n_u} path(s): while unknown it is recomputed on every append once more than 3 octets are present; a known position is never overwritten")
+    rep.count("accessors", 1)
 
     def castless(sv):
         if isinstance(sv, tuple):
@@ -493,7 +536,7 @@ def _geometry(rep, M, F, H, file, store):
         rep.violation("R4", "hdlc.HdlcFrameHeader.header_check_sequence", "hcs", "HCS is not (octet[control+1] << 8) | octet[control+2], available from control+3 octets on", file, fn.node.lineno,
                       witness=show_sv(vals[0].ret) if vals else None)
     # payload, FCS, as_bytes
-    IP = ("prop", ("f0", SELF, "_header"), "information_position")
+    IP = ("prop", ("f0", SELF, roles["header"]), "information_position")
     ST = ("f0", SELF, store)
     fn = F.methods.get("payload")
     rep.require(fn is not None, "anchor vanished: HdlcFrame.payload")
